@@ -1357,7 +1357,7 @@ def correspondence(ctx):
               "and at least one query/wait; distinct = distinct full observation trace (results, instants, final slots, "
               "callback log).")
     depth_main = ctx.budget(5, 7)              # reply put into the channel now, value
-    depth_other = ctx.budget(5, 6)
+    depth_other = ctx.budget(4, 6)             # the same two with an exception
     depth_top = ctx.budget(6, 8)               # reply dispatched now, value
     lines, impl = [], []
     kinds = {}
